@@ -37,6 +37,7 @@ def generate(seed, tier, index):
         # co-observers at the initial state and at one visited state
         entries = [[rf.randint(0, m.ns - 1), rf.randint(0, m.nc - 1)] for _ in range(rf.randint(1, 4))]
         U = gen_us(rf)
+        ac = rf.chance(0.3)         # the kinetics functions with the chemostat mask applied (default of the API)
         # building blocks: forward/reverse rates of one reaction in one cell, exchange rates across one face
         parts = []
         if m.nh and rf.chance(0.7):
@@ -49,15 +50,15 @@ def generate(seed, tier, index):
         if single and rf.chance(0.7):
             i, j = rf.choice(single)
             parts.append(["d", rf.randint(0, m.ns - 1), i, j])
-        k1 = ["kinetics", entries, False, U, None, parts]
+        k1 = ["kinetics", entries, ac, U, None, parts]
         if m.nc == 1 and rf.chance(0.7):
-            k1 = ["kinetics", "all", False, U, "dxdtf"]
+            k1 = ["kinetics", "all", ac, U, "dxdtf"]
         elif m.ns * m.nc <= 6 and rf.chance(0.5):
-            k1 = ["kinetics", "all", False, U]
+            k1 = ["kinetics", "all", ac, U]
         # position: after set-up and after the drive
         i_drive = [i for i, o in enumerate(ops) if o[0] == "drive"][0]
         ops.insert(i_drive + 1, k1)
-        ops.insert(i_drive, ["kinetics", entries, False, gen_us(rf)])
+        ops.insert(i_drive, ["kinetics", entries, ac, gen_us(rf)])
     ops.append(["finalize"])
     scripts = [entry]
     eps = []
@@ -176,7 +177,7 @@ def check(case, results):
         ops = case["lifetimes"][0]["episodes"][me]["ops"]
         for ev in res.events:
             if ev["e"] == me and ev["op"] == "kinetics" and "exc" not in ev and not ev.get("skipped"):
-                check_kinetics(ev, ops[ev["i"]], m, phys, v, stats, "C01", masked=False)
+                check_kinetics(ev, ops[ev["i"]], m, phys, v, stats, "C01", masked=bool(ops[ev["i"]][2]))
     nst = stats.get("euler_steps_checked", 0)
     stats["engine_steps"] = nst
     stats["nontrivial"] = 1 if nst >= 2 else 0
